@@ -12,6 +12,8 @@ import KafkaVerif.Model.Batch
 import KafkaVerif.Model.ReaderLoop
 import KafkaVerif.Model.ReaderFront
 import KafkaVerif.Spec.Layout
+import KafkaVerif.Spec.ByteLayout
+import KafkaVerif.Spec.Crc
 
 namespace KV.OracleC02
 open KV KV.C02
@@ -147,6 +149,22 @@ def readerHolds (all final : List Rec) (positions : List Int) (lens : List Nat) 
     (final.filter (fun r => p ≤ r.1 && (isLast || (match seg.getLast? with | some l => r.1 ≤ l.1 | none => false)))).all (fun r => seg.contains r) &&
     (isLast || seg.length == lens.getD i 0)
 
+/-! ### op `tok`: bytes → tokens -/
+
+def lenPrefixed (b : Bytes) : Bytes := RW.beN 4 b.length ++ b
+
+/-- the driver's `Digest`: crc32 of key, value, 8-byte timestamp, headers (null and empty identified) -/
+def digestOf (key value : Option Bytes) (ts : Int) (hs : List Spec.RB.Hdr) : Nat :=
+  Crc.crc32 Crc.polyIEEE
+    (lenPrefixed (key.getD []) ++ lenPrefixed (value.getD []) ++ RW.beN 8 (RW.toU RW.M64 ts) ++
+      hs.flatMap (fun h => lenPrefixed h.key ++ lenPrefixed (h.value.getD [])))
+
+def tokCfg : TokCfg :=
+  { crcs := { ieee := Crc.crc32 Crc.polyIEEE, castagnoli := Crc.crc32 Crc.polyCastagnoli },
+    dec := fun _ _ => none,
+    dg2 := fun fts r => digestOf r.key r.value (fts + r.tsDelta) r.headers,
+    dg1 := fun m => digestOf m.key m.value (if m.magic = 0 then -1 else m.ts) [] }
+
 def variantOf (op : String) : Variant := if op.startsWith "legacy-" then .legacy else .fixed
 
 def step (line : String) : String :=
@@ -177,7 +195,15 @@ def step (line : String) : String :=
         | _, _, _, _ => "bad-op"
       else "bad-op"
     | some op, none =>
-      if op == "reader" || op == "legacy-reader" then
+      if op == "tok" then
+        match (field ws "hex").bind ofHex, (field ws "L").bind parseLayout with
+        | some bytes, some items =>
+          let expected := truncate (allTokens items) bytes.length
+          let actual := tokenize tokCfg (bytes.length + 1) .hdr bytes
+          if actual == expected then answer "same" true
+          else answer s!"diff:{repr (actual.zip expected |>.find? (fun p => p.1 != p.2))}" false
+        | _, _ => "bad-op"
+      else if op == "reader" || op == "legacy-reader" then
         let v := variantOf op
         let iw := words impl
         match fieldInt ws "v", field ws "start", fieldInt ws "hwm", (field ws "L").bind parseLayout,
